@@ -3,6 +3,8 @@ import EinxModel.Driver.Registry
 import EinxModel.Driver.Update
 import EinxModel.Driver.Notation
 import EinxModel.Driver.Solve
+import EinxModel.Driver.Cache
+import EinxModel.Driver.Concurrent
 import EinxModel.Driver.IR
 /-! Line-protocol driver: one JSON request per input line, one JSON answer per output line. -/
 open Lean Einx.Driver
@@ -11,7 +13,9 @@ def dispatch (j : Json) : R Json := do
   match ← strF j "kind" with
   | "ping" => pure (Json.mkObj [("pong", Json.bool true)])
   | "registry" => Einx.Driver.Registry.handle j
+  | "sched" | "serial_outcomes" | "explore" => Einx.Driver.Concurrent.handle j
   | "notation" => Einx.Driver.Notation.handle j
+  | "cache-table" | "freeze" | "pyeq" | "pyhash" | "memo" | "stack" => Einx.Driver.Cache.handle j
   | "solve" | "checksat" | "checkaxes" => Einx.Driver.Solve.handle j
   | "ir_run" | "validate" | "denote" => Einx.Driver.IR.handle j
   | "update_denote" | "update_lower" | "update_get" | "update_addr" | "np_put" | "np_ufunc_at" | "assignments" =>
